@@ -269,7 +269,10 @@ def check(ctx, args):
                 fail("lock_left_after_handled_signal", "mrp exited on %s but _lock is still there" % s["mode"])
         last = incs[-1]
         import re
-        init_rx = r"(open \S*/_(mrosource|invocation|versions|tags|uuid|timestamp|jobmode): no such file|ParseError: [^\n]* at \S*/_mrosource|unexpected end of JSON input|is not a pipestance directory)"
+        init_rx = r"(open \S*/_(mrosource|invocation|versions|tags|uuid|timestamp|jobmode): no such file|ParseError: [^\n]* at \S*/_mrosource|unexpected end of JSON input|is not a pipestance directory|already exists with different invocation file)"
+        # (the last alternative: _invocation itself was being written when mrp
+        # was stopped - its content is compared byte for byte on restart; only
+        # counted here when no job had started yet, events == 0)
         if last["exit"] != 0 and incs[0]["events"] == 0 and s["mode"] in ("kill", "killgroup") and re.search(init_rx, last["tail"]):
             fail("killed_during_pipestance_initialisation", "mrp was killed while writing the top-level metadata files; the restart refuses the half-initialised directory")
         elif last["exit"] != 0 and incs[0]["events"] == 0 and s["mode"] in ("term", "int") and re.search(init_rx, last["tail"]):
